@@ -68,12 +68,23 @@ pub type InputArrayOp<'a> = Rc<dyn Fn(&mut Value) -> Result<(), InputPluginError
 /// input queries should always remain wrapped in a top-level JSON Array
 /// so that we can perform operations like grid search, which transform a
 /// single query into multiple child queries.
-pub fn json_array_op<'a>(query: &'a mut Value, op: InputArrayOp<'a>) -> Result<(), Value> {
+pub fn json_array_op<'a>(
+    query: &'a mut Value,
+    op: InputArrayOp<'a>,
+    errors: &mut Vec<Value>,
+) -> Result<(), Value> {
     match query {
         Value::Array(queries) => {
-            for q in queries.iter_mut() {
-                op(q).map_err(|e| package_error(q, e))?;
+            // a query for which the operation fails is answered with its own error response
+            // and leaves the array; the other queries of the array are processed all the same
+            let mut kept = Vec::with_capacity(queries.len());
+            for mut q in std::mem::take(queries) {
+                match op(&mut q) {
+                    Ok(()) => kept.push(q),
+                    Err(e) => errors.push(package_error(&mut q, e)),
+                }
             }
+            *queries = kept;
             json_array_flatten_in_place(query)
         }
         other => {
